@@ -137,4 +137,64 @@ def h2Headers (method scheme target : Bytes) (hs : List Header) : Option (List H
             (fun h => (lower h.1, h.2)),
           !hasBodyHeaders hs)
 
+/-! ### which header blocks h2 refuses to encode
+
+`h2.utilities.validate_outbound_headers` (h2 4.4), applied to the block after
+`normalize_outbound_headers` (names lower-cased, names and values stripped of surrounding white
+space).  The rules are RFC 7540 §8.1.2 / RFC 9113 §8.3–8.5 / RFC 8441.  A hand-written model of a
+dependency, tied by the C03 differential. -/
+
+def wsByte (b : Nat) : Bool := b = 32 || (9 ≤ b && b ≤ 13)
+
+/-- Python's `bytes.strip()` -/
+def strip (b : Bytes) : Bytes := ((b.dropWhile wsByte).reverse.dropWhile wsByte).reverse
+
+def isPseudo (n : Bytes) : Bool := n.head? = some 58
+
+def allowedPseudo : List Bytes :=
+  [ascii ":method", ascii ":scheme", ascii ":authority", ascii ":path", ascii ":status", ascii ":protocol"]
+
+/-- a pseudo-header field after an ordinary field -/
+def pseudoAfterRegular : List Header → Bool
+  | [] => false
+  | h :: t => if isPseudo h.1 then pseudoAfterRegular t else t.any (fun x => isPseudo x.1)
+
+def hasDup : List Bytes → Bool
+  | [] => false
+  | n :: t => t.contains n || hasDup t
+
+/-- the block as h2 validates it -/
+def h2Norm (handed : List Header) : List Header := handed.map (fun h => (strip (lower h.1), strip h.2))
+
+/-- does h2 raise `ProtocolError` for this block (request head, client side)? -/
+def h2Refuses (handed : List Header) : Bool :=
+  let l := h2Norm handed
+  let pseudo := (l.filter (fun h => isPseudo h.1)).map (·.1)
+  let connect := l.any (fun h => h.1 = ascii ":method" && h.2 = ascii "CONNECT")
+  let authority := (l.find? (fun h => h.1 = ascii ":authority")).map (·.2)
+  let hosts := (l.filter (fun h => h.1 = ascii "host")).map (·.2)
+  l.any (fun h => h.1 = ascii "te" && lower h.2 != ascii "trailers")          -- `_reject_te`
+  || hasDup pseudo || pseudoAfterRegular l                                       -- `_reject_pseudo_header_fields`
+  || pseudo.any (fun n => !allowedPseudo.contains n)
+  || pseudo.contains (ascii ":status")                                           -- response-only
+  || (if connect then !pseudo.contains (ascii ":protocol")                       -- ordinary CONNECT carries no :scheme / :path
+      else pseudo.contains (ascii ":protocol"))
+  || decide (hosts.length > 1) || hosts.any (fun v => authority != some v)       -- `_validate_host_authority_header`
+  || l.any (fun h => h.1 = ascii ":path" && h.2 = [])                            -- `_check_path_header`
+
+/-- a field whose name is empty after stripping makes h2 fail with IndexError instead (`header[0][0]`) -/
+def h2Crashes (handed : List Header) : Bool := (h2Norm handed).any (fun h => h.1 = [])
+
+inductive H2Sent where
+  | noHost                                   -- IndexError in httpcore's own list comprehension
+  | rejected                                 -- LocalProtocolError, nothing written
+  | handed (l : List Header) (endStream : Bool)
+  deriving DecidableEq, Repr
+
+/-- `_send_request_headers`: map, hand to `h2.send_headers`; h2 validates iff its configuration says so -/
+def h2SendHead (validates : Bool) (method scheme target : Bytes) (hs : List Header) : H2Sent :=
+  match h2Headers method scheme target hs with
+  | none => .noHost
+  | some (l, e) => if validates && h2Refuses l then .rejected else .handed l e
+
 end Httpcore.H1W
